@@ -165,6 +165,11 @@ def _joint(r: R, cfg, name, jt):
   if jt == "free":
     if cfg["dynamics"] and r.p(0.3):
       j["damping"] = r.u(0.0, 0.5)
+    if cfg.get("free_stiffness") and r.p(0.6):
+      # opt-in (own draws only when enabled, so other properties' cases are unchanged): spring on a free joint, optionally polynomial
+      j["stiffness"] = r.u(1.0, 30.0)
+      if cfg.get("poly") and r.p(0.6):
+        j["stiffnesspoly"] = [r.u(0, 30.0), r.u(0, 40.0)]
     return j
   if jt != "ball":
     j["axis"] = r.unit()
@@ -709,7 +714,13 @@ def render(spec) -> str:
       out.append(f"<inertial{_attrs(b['inertial'], ['pos', 'quat', 'mass', 'diaginertia'])}/>")
     for j in b["joints"]:
       if j["type"] == "free":
-        out.append(f'<freejoint name="{j["name"]}"/>' if "damping" not in j else f'<joint name="{j["name"]}" type="free" damping="{_a(j["damping"])}"/>')
+        if "damping" not in j and "stiffness" not in j:
+          out.append(f'<freejoint name="{j["name"]}"/>')
+        else:
+          jj = dict(j)
+          if "stiffnesspoly" in jj:
+            jj["stiffness"] = [jj.get("stiffness", 0.0)] + jj["stiffnesspoly"]
+          out.append(f"<joint{_attrs(jj, ['name', 'type', 'damping', 'stiffness'])}/>")
       else:
         jj = dict(j)
         if "dampingpoly" in jj:
